@@ -3,17 +3,53 @@
 import json, os
 ROOT = os.path.dirname(os.path.abspath(__file__))
 
+PBT = "property-based testing with proptest (choice-tape generators, 16 deterministic shards, shrinking, replay files)"
 CLAIMED = {
  "C02": dict(
-  technique="property-based differential testing (proptest choice-tape generators; gradual calculator vs one-shot passed_objects(i) on generated maps/settings; shrunk replay files)",
+  technique=PBT + "; differential oracle: gradual calculator vs one-shot passed_objects(i) on generated maps/settings",
   text="Exploration: generated maps of all modes/converts and Difficulty settings; every gradual value is compared field-by-field with the one-shot prefix calculation, the announced length with the produced count, the last value with the unlimited calculation. Finds counterexamples cheaply and reports how much of the domain was visited; does not prove absence.",
-  note="Trusts the harness's .osu renderer to produce what it describes and Beatmap::from_bytes as the entry point; open taiko findings (known_findings.json) are steered around by construction and replayed from witnesses.",
+  note="Trusts the harness's .osu renderer and Beatmap::from_bytes as the entry point; open taiko findings (known_findings.json) are steered around by construction and replayed from witnesses.",
   ref="DESIGN.md §4 C02"),
+ "C03": dict(
+  technique=PBT + "; differential oracle over generated walks (next/nth/last) and score states: GradualPerformance vs one-shot Performance with passed_objects(i).state(s)",
+  text="Exploration over maps x settings x step histories x score states (consistent and inconsistent): every returned PerformanceAttributes is compared on all fields with the one-shot calculation for the prefix the returned difficulty reports.",
+  note="Inputs in the open taiko gradual classes are excluded by construction (counted).",
+  ref="DESIGN.md §4 C03"),
+ "C04": dict(
+  technique=PBT + "; differential oracle across 13 entry points (map by ref/value, DifficultyAttributes, PerformanceAttributes, mode-specific builders)",
+  text="Exploration: the performance result from the map is compared (all fields) with the result from every attribute-based entry point under the same Difficulty (incl. passed_objects) and score specification; embedded difficulty vs one-shot difficulty.",
+  note="The same settings are supplied again on the attribute path, as documented.",
+  ref="DESIGN.md §4 C04"),
+ "C07": dict(
+  technique=PBT + "; relational oracle: three conversion entry points agree, decision table for Ok/Err, mode-dispatch calls vs the same call on the explicitly converted map",
+  text="Exploration over maps of all native modes (incl. already converted ones) x target x conversion-relevant mods x settings: agreement of convert/convert_ref/convert_mut, identity, error variants, and equality of calculate_for_mode / strains_for_mode / gradual constructors / Performance::try_mode / mode_or_ignore with the explicit conversion.",
+  note="Gradual walks skip inputs inside open taiko gradual findings.",
+  ref="DESIGN.md §4 C07"),
+ "C08": dict(
+  technique=PBT + "; differential oracle over the five mod representations and over lazer settings vs explicit setters",
+  text="Exploration: difficulty, strains, performance and attribute-builder results must be same-value-equal across u32 / GameModsLegacy / GameModsIntermode / &GameModsIntermode / lazer GameMods; lazer rate mods vs clock_rate(r); lazer DifficultyAdjust vs ar/cs/hp/od(v,false).",
+  note="NC encoded as 576; lazer leg skipped (labelled) when the mode lacks a mod; incompatible selections (DT+HT, HR+EZ) are generated and judged like any other.",
+  ref="DESIGN.md §4 C08"),
+ "C09": dict(
+  technique=PBT + "; validity predicate over the canonical dump of every result (finite, non-negative, accuracy in [0,1], zero hits => zero pp) with explicit degenerate map families",
+  text="Exploration of realistic maps incl. degenerate families x settings reachable in the game x prefixes x consistent score states; every f64 field of difficulty, strains and performance is checked.",
+  note="AR/OD/HP/CS/hit-window fields are only required to be finite.",
+  ref="DESIGN.md §4 C09"),
+ "C14": dict(
+  technique=PBT + "; independent recount from the converted map's public hit objects plus monotonicity / capping relations over every passed_objects(n)",
+  text="Exploration: counts recomputed by the harness from the explicitly converted map are compared with the attributes for the full map and every prefix n in 0..total+3 (and beyond); counts monotone in n; n>total equals unlimited; is_convert flag.",
+  note="Under lazer Invert only relations are checked.",
+  ref="DESIGN.md §4 C14"),
  "C15": dict(
-  technique="model-based (stateful) property testing: generated call histories over next/nth/len/size_hint/adaptors checked against a reference cursor model",
+  technique="model-based (stateful) " + PBT + ": generated call histories over next/nth/len/size_hint/adaptors checked against a reference cursor model",
   text="Exploration over call histories: a reference sequence from plain next() plus a cursor model predicts every observation (values, len, size_hint, None after exhaustion, adaptor outputs); GradualPerformance step arithmetic likewise.",
   note="The reference sequence is the calculator's own next() drain (tied to one-shot results by C02); std adaptors are modelled with a specialisation-free iterator.",
   ref="DESIGN.md §4 C15"),
+ "C16": dict(
+  technique=PBT + "; re-aggregation oracle: harness re-implementation of the documented decay-weighted sum applied to the returned peaks vs the reported ratings",
+  text="Exploration incl. maps with gaps long enough for strains to reach exactly zero (runs of zero sections): peaks finite/non-negative, equal vector lengths, catch and mania stars and osu flashlight reproduced from strains() within 1e-12 relative.",
+  note="Tolerance 1e-12 relative (two implementations of one formula).",
+  ref="DESIGN.md §4 C16"),
 }
 
 REASON_TODO = "check not built yet in this session (planned, see DESIGN.md §4); not claimed until its quick command exists and is silent on the unchanged tree"
